@@ -44,14 +44,6 @@ theorem shipped_v3_ok : CdfTableOK (cdf3 : CdfTable ℝ) := by
 
 /-! ### the sampler is the exact inverse transform -/
 
-/-- unfolding of the sampler inside the table range -/
-theorem cdfSample_of_vecInterp (t : CdfTable ℝ) (le b u z : ℝ)
-    (hle : Model.Interp.outOfBounds t.logE le = false) (hb : Model.Interp.outOfBounds t.beta b = false)
-    (h : vecInterp1 (interpRow t le b) t.frac u = some z) : cdfSample t le b u = .ok z := by
-  unfold interpRow at h
-  unfold cdfSample
-  simp [hle, hb, h]
-
 /-- **Inverse transform.** For every energy and angle inside the table range and every `u` with
 `0 < u ≤ last entry of the interpolated row`, the sampler returns a fraction `z` in the bracket
 `[frac k, frac (k+1)]` whose CDF values bracket `u`, and the piecewise-linear CDF takes the value `u` at `z`. -/
@@ -62,37 +54,8 @@ theorem inverse_transform (t : CdfTable ℝ) (ht : CdfTableOK t) (le b u : ℝ)
       (interpRow t le b).getD k 0 < u ∧ u ≤ (interpRow t le b).getD (k+1) 0 ∧
       t.frac.getD k 0 ≤ z ∧ z ≤ t.frac.getD (k+1) 0 ∧
       (interpRow t le b).getD k 0 + (z - t.frac.getD k 0) *
-        (((interpRow t le b).getD (k+1) 0 - (interpRow t le b).getD k 0) / (t.frac.getD (k+1) 0 - t.frac.getD k 0)) = u := by
-  have hc := cell_of_inRange ht le b hle hb
-  have hrow := interpRow_ok ht le b hc
-  have hlen := interpRow_length ht le b hc
-  have hhead : (interpRow t le b).head hrow.nonempty = 0 := by
-    have := hrow.first
-    rw [List.head_eq_getElem]
-    rw [List.getElem?_eq_getElem (List.length_pos_iff.mpr hrow.nonempty)] at this
-    exact Option.some.inj this
-  have hlast : u ≤ (interpRow t le b).getLast hrow.nonempty :=
-    hu1 _ (List.getLast?_eq_getLast hrow.nonempty)
-  obtain ⟨k, hk, h1, h2, hres⟩ := vecInterp1_spec (interpRow t le b) t.frac u hrow.mono hrow.nonempty
-    (by rw [hhead]; exact hu0) hlast
-  rw [hlen] at hk
-  have hkr : k + 1 < (interpRow t le b).length := by rw [hlen]; exact hk
-  have fk : t.frac.getD k 0 = t.frac[k] := getD_eq _ _ (by omega) _
-  have fk1 : t.frac.getD (k+1) 0 = t.frac[k+1] := getD_eq _ _ hk _
-  have rk : (interpRow t le b).getD k 0 = (interpRow t le b)[k] := getD_eq _ _ (by omega) _
-  have rk1 : (interpRow t le b).getD (k+1) 0 = (interpRow t le b)[k+1] := getD_eq _ _ hkr _
-  have hfrac : t.frac[k] < t.frac[k+1] := pairwise_get_lt _ ht.frac_inc _ _ (by omega) hk (by omega)
-  refine ⟨k, twoPoint u (interpRow t le b)[k + 1] (t.frac.getD (k + 1) 0) (interpRow t le b)[k] (t.frac.getD k 0), hk, ?_, ?_, ?_, ?_, ?_, ?_⟩
-  · exact cdfSample_of_vecInterp t le b u _ (outOfBounds_false _ _ hle ht.nE) (outOfBounds_false _ _ hb ht.nB) hres
-  · rw [rk]; exact h1
-  · rw [rk1]; exact h2
-  · rw [fk]
-    have := (twoPoint_between u _ (t.frac.getD (k+1) 0) _ (t.frac.getD k 0) h1 h2 (by rw [fk, fk1]; exact hfrac.le)).1
-    rwa [fk] at this
-  · have := (twoPoint_between u _ (t.frac.getD (k+1) 0) _ (t.frac.getD k 0) h1 h2 (by rw [fk, fk1]; exact hfrac.le)).2
-    exact this
-  · rw [rk, rk1]
-    exact twoPoint_inverse u _ _ _ _ (lt_of_lt_of_le h1 h2) (by rw [fk, fk1]; exact hfrac)
+        (((interpRow t le b).getD (k+1) 0 - (interpRow t le b).getD k 0) / (t.frac.getD (k+1) 0 - t.frac.getD k 0)) = u :=
+  CdfSample.inverse_transform t ht le b u hle hb hu0 hu1
 
 /-- the sampled fraction lies inside the tabulated fraction range, in particular `z ≤ 1`:
 the tau never carries more energy than the neutrino -/
@@ -166,8 +129,8 @@ theorem sample_mono (t : CdfTable ℝ) (ht : CdfTableOK t) (le b u u' z z' : ℝ
     have ek2 : k2 = k := Bracket.bracket_unique _ u' hrow.mono k2 k hk2 hkr ⟨d1, d2⟩ ⟨b1, b2⟩
     subst ek1
     subst ek2
-    have s1 := cdfSample_of_vecInterp t le b u _ (outOfBounds_false _ _ hle ht.nE) (outOfBounds_false _ _ hb ht.nB) r1
-    have s2 := cdfSample_of_vecInterp t le b u' _ (outOfBounds_false _ _ hle ht.nE) (outOfBounds_false _ _ hb ht.nB) r2
+    have s1 := CdfSample.cdfSample_of_vecInterp t le b u _ (outOfBounds_false _ _ hle ht.nE) (outOfBounds_false _ _ hb ht.nB) r1
+    have s2 := CdfSample.cdfSample_of_vecInterp t le b u' _ (outOfBounds_false _ _ hle ht.nE) (outOfBounds_false _ _ hb ht.nB) r2
     rw [hs] at s1; rw [hs'] at s2
     rw [Except.ok.inj s1, Except.ok.inj s2]
     exact twoPoint_mono u u' _ _ _ _ (lt_of_lt_of_le c1 c2) (fmono k2 (k2+1) (by omega) (by omega)) huu
